@@ -12,7 +12,7 @@ for d in sorted(glob.glob(os.path.join(root, 'C*'))):
     # first pass = the checks as committed when the seed was delivered; second = after strengthening (per round)
     r1 = first_of('result_r4_first.json', 'result_r6_first.json', 'result.json')
     r2 = first_of('result_r4_second.json', 'result_r6_second.json', 'result2.json')
-    r3 = first_of('result_now.json', 'result3.json')        # a later run against the checks as they are now
+    r3 = first_of('result_final.json', 'result_now.json', 'result3.json')        # a later run against the checks as they are now
     def caught(r): return sorted(p for p, v in (r or {}).get('checks', {}).items() if v['rc'] == 1)
     def line(r):
         for p, v in (r or {}).get('checks', {}).items():
